@@ -24,8 +24,19 @@ def rename_case(rng):
         u, m = rng.choice(cands)
         old = m["name"]
         files, built = {}, []
+        if rng.random() < 0.35:
+            # a second class with the very same layout (same lines and columns) in another file
+            src = rng.choice(units)
+            twin = json.loads(json.dumps(src))
+            twin["name"] = src["name"][:-1] + ("Z" if not src["name"].endswith("Z") else "Y")
+            if not any(x["name"] == twin["name"] and x["pkg"] == twin["pkg"] for x in units):
+                for mm in twin["members"]:
+                    if mm["kind"] == "ctor":
+                        mm["name"] = twin["name"]
+                src["_twin"] = twin["_twin"] = True
+                units = units + [twin]
         for un in units:
-            text, facts = javagen.render_unit(un, rng, wild=rng.choice([0.0, 0.05, 0.15]), comments=COMMENTS)
+            text, facts = javagen.render_unit(un, rng, wild=0.0 if un.get("_twin") else rng.choice([0.0, 0.05, 0.15]), comments=COMMENTS)
             path = "src/main/java/%s/%s.java" % (un["pkg"].replace(".", "/"), un["name"])
             built.append({"path": path, "text": text, "facts": facts, "unit": un})
             files[path] = text
@@ -181,7 +192,7 @@ def view(o):
 
 LIB = [("java.util", "List"), ("java.util", "ArrayList"), ("java.util", "Map"), ("java.io", "IOException"), ("org.lib", "Tool"), ("org.lib.deep", "Order"),
        ("org.lib", "Helper"), ("javax.inject", "Inject"), ("org.lib", "Config"), ("com.acme", "Émile")]
-USES = ["field", "anno", "new", "static", "catch", "param", "ret", "extends", "generic", "throws", "cast", "local"]
+USES = ["field", "anno", "new", "static", "staticfield", "staticarg", "catch", "param", "ret", "extends", "generic", "throws", "cast", "local"]
 
 
 def unused_file(rng, idx):
@@ -234,6 +245,10 @@ def unused_file(rng, idx):
             methods.append("    void st%s() { %s.create(1); }" % (n, n))
         elif how == "staticcall":
             methods.append("    void sc%s() { %s(); }" % (n, n))
+        elif how == "staticfield":
+            methods.append("    int sf%s() { return %s.MAX; }" % (n, n))
+        elif how == "staticarg":
+            methods.append("    void sa%s() { run(1, %s.DEFAULT); }" % (n, n))
         elif how == "catch":
             methods.append("    void ct%s() { try { run(); } catch (%s e) { run(); } }" % (n, n))
         elif how == "param":
